@@ -96,6 +96,10 @@ func strokeInput(id run.CaseID) strokeCase {
 		sc.End = 1 + r.Intn(4)
 		sc.Miter = gen.PickOf(r, 1.0, 2, 5)
 		sc.ArcTol = gen.PickOf(r, 0, 0, 0.25, sc.Delta/2)
+		if r.Chance(0.1) { // a vertex exactly on the origin
+			dx, dy := anchorShift(r, nil, []Paths{sc.Lines})
+			sc.Lines = gen.Translate(sc.Lines, dx, dy)
+		}
 		return sc
 	case "stroke-generic":
 		// x-monotone polyline with long segments relative to delta: never approaches itself
@@ -115,6 +119,10 @@ func strokeInput(id run.CaseID) strokeCase {
 		sc.End = 1 + r.Intn(4)
 		sc.Miter = gen.PickOf(r, 1.0, 2, 5)
 		sc.ArcTol = gen.PickOf(r, 0, 0, 0.25, sc.Delta/2)
+		if r.Chance(0.1) { // a vertex exactly on the origin
+			dx, dy := anchorShift(r, nil, []Paths{sc.Lines})
+			sc.Lines = gen.Translate(sc.Lines, dx, dy)
+		}
 		return sc
 	default:
 		k := 1 + r.Intn(2)
